@@ -87,7 +87,7 @@ class Recorder:
         self.arg_as_edge_results = 0
 
     # fast / network flavour -----------------------------------------------------------------
-    def fast_builder(self, k, shape, use_library, lib_arg="list", scratch=False):
+    def fast_builder(self, k, shape, use_library, lib_arg="list", scratch=False, arg_as_edge=False):
         import gcmpy
         lib = {"clique": gcmpy.clique_motif, "cycle": gcmpy.cycle_motif, "diamond": gcmpy.diamond_motif}
         buf = []
@@ -97,6 +97,12 @@ class Recorder:
             if self.on_build is not None:
                 self.on_build(k)
             kind = "list"
+            if arg_as_edge and len(args) == 2 and isinstance(vertices, list) and len(shape_edges(shape, args)) == 1:
+                # "a 2-vertex motif has one edge: its vertex pair" - the callback hands back the very list it was given, as the one edge
+                # (recorded by value here; what the generator keeps is that list object)
+                self.calls.append((k, args, [(args[0], args[1])], "list"))
+                self.arg_as_edge_results += 1
+                return [vertices]
             if use_library and shape in lib and not (shape == "cycle" and len(args) < 2):
                 es = sut(f"{shape}_motif{args}", lib[shape], as_container(vertices, lib_arg))
                 es_norm, kind = normalise_result(es)
@@ -219,7 +225,7 @@ def make_fast_config(rng, allow_empty=False, distinct=True, shared_names=False):
         names = [E(nm) for nm in names]
     return {"flavour": rng.choice(["fast", "fast", "network"]), "motifs": [list(m) for m in motifs],
             "names": names, "decoy": rng.random() < 0.25, "lib_arg": rng.choice(["list", "list", "list", "tuple", "ndarray"]), "scratch": rng.random() < 0.15,
-            "path": rng.choice(["direct", "main-enum", "main-str", "factory"]), "use_library": rng.random() < 0.7}
+            "path": rng.choice(["direct", "main-enum", "main-str", "factory"]), "use_library": rng.random() < 0.7, "arg_as_edge": rng.random() < 0.2}
 
 
 def make_custom_config(rng, force=None):
@@ -318,7 +324,7 @@ def build_algorithm(cfg, rec):
         rec.namers = namers
     else:
         params[G.MOTIF_SIZES] = [m[1] for m in cfg["motifs"]]
-        params[G.BUILD_FUNCTIONS] = [rec.fast_builder(k, m[0], cfg["use_library"], lib_arg=cfg.get("lib_arg", "list"), scratch=cfg.get("scratch", False))
+        params[G.BUILD_FUNCTIONS] = [rec.fast_builder(k, m[0], cfg["use_library"], lib_arg=cfg.get("lib_arg", "list"), scratch=cfg.get("scratch", False), arg_as_edge=cfg.get("arg_as_edge", False))
                                      for k, m in enumerate(cfg["motifs"])]
         params[G.EDGE_NAMES] = list(cfg["names"])
         if cfg["flavour"] == "network":
